@@ -180,6 +180,9 @@ func main() {
 					continue
 				}
 				tmo := *timeout
+				if o.effort > tmo {
+					tmo = o.effort
+				}
 				if o.quickOnly && tmo > 3 {
 					tmo = 3
 				}
